@@ -142,10 +142,42 @@ func c08Conn(w *cvxWorld, j *cvxJob) bool {
 	return true
 }
 
+// c08Fail: the upstream fails (refuses the connection, hangs up before any answer, does not answer in time).  The
+// answer fabio makes up is an answer on the client's connection like any other: Strict-Transport-Security on TLS.
+func c08Fail(w *cvxWorld, j *cvxJob) bool {
+	cs := j.cs
+	if cs.Out.Cut {
+		w.plans.Store(j.id, &cvxPlan{Fault: cs.Out.Resp, Body: 1})
+		defer w.plans.Delete(j.id)
+	}
+	cs.Att = &cvxAtt{}
+	got, err := w.doHTTPOnce(cs, j.id)
+	if err != nil {
+		w.errorf("case %d: %v (%s)", j.id, err, c08Describe(cs))
+		return false
+	}
+	if got.Status < 500 || got.Status > 599 {
+		w.errorf("case %d: the upstream fails (%s) but the client got status %d", j.id, cs.Out.Resp, got.Status)
+		return false
+	}
+	if msg := cvxCheckHdr(cs, "sts", cs.Out.STS, got.Header.Values("Strict-Transport-Security")); msg != "" {
+		f := c08Features(cs, "sts")
+		f["upstream"] = cs.Out.Resp
+		if cs.Out.Kind == "badgateway" {
+			f["upstream"] = "refused"
+		}
+		verifx.Fail(cs, f, "the upstream failed, fabio answered %d; client saw Strict-Transport-Security: %s\n  case: %s", got.Status, msg, c08Describe(cs))
+	}
+	return true
+}
+
 func c08Exec(w *cvxWorld, j *cvxJob) bool {
 	cs := j.cs
 	if cs.C.Sub == "conn" {
 		return c08Conn(w, j)
+	}
+	if cs.Out.Kind == "badgateway" || cs.Out.Cut {
+		return c08Fail(w, j)
 	}
 	fail := func(clause, format string, a ...any) {
 		verifx.Fail(cs, c08Features(cs, clause), "%s\n  case: %s", fmt.Sprintf(format, a...), c08Describe(cs))
